@@ -444,5 +444,11 @@ func main() {
 		c.Set("cases", len(ws))
 		c.Set("largest_source_bytes", ws[len(ws)-1].Size)
 		_ = fmt.Sprint
+		// E-SCHED companion: reader/worker interleavings on 1-5 part uploads (8 scenarios x 2 shards; thorough 10 x 2)
+		units := 16
+		if c.Thorough() {
+			units = 20
+		}
+		c.ForkSched(units, 16)
 	})
 }
